@@ -254,12 +254,22 @@ class Ctx:
                     line = line.strip()
                     if not line:
                         continue
-                    e = json.loads(line)
+                    try:
+                        e = json.loads(line)
+                    except ValueError:
+                        if self.partial:
+                            break          # a driver that was killed may leave a torn last line
+                        raise
                     mx = max(mx, e.get("scn", 0))
                     e["scn"] = e.get("scn", 0) + off
                     events.append(e)
                     w.write(json.dumps(e) + "\n")
                 off += mx + 1
+            if self.partial and events:
+                # the driver stalled for good: tell the monitor (a monitor may judge what was pending at that point)
+                e = {"ev": "Aborted", "scn": events[-1]["scn"], "seq": events[-1].get("seq", 0) + 1, "why": self.partial[:80]}
+                events.append(e)
+                w.write(json.dumps(e) + "\n")
         if not events:
             raise Broken("empty trace")
         nscn = len({e["scn"] for e in events})
